@@ -137,20 +137,39 @@ func runC05(c *core.Ctx) {
 		eng.Dominates(c, "C05.read", fn, relGuard("hdr.Magic == NetworkMagic", isHdrField("Magic"), isHdrField("NetworkMagic"), token.EQL), succ, "message returned", nil)
 		maxPay, err := c.P.Const(pkP2PCommon, "MAX_PAYLOAD_LEN")
 		var bufMake *ssa.MakeSlice
-		for _, b := range fn.Blocks {
-			for _, in := range b.Instrs {
-				if ms, ok := in.(*ssa.MakeSlice); ok && isHdrField("Length")(ms.Len) {
-					bufMake = ms
+		// the payload may be read (and checked) by a small same-package helper
+		hosts, releaseHosts := hostsWithHelpers(fn)
+		defer releaseHosts()
+		for _, host := range hosts {
+			for _, b := range host.Blocks {
+				for _, in := range b.Instrs {
+					if ms, ok := in.(*ssa.MakeSlice); ok && isHdrField("Length")(ms.Len) {
+						bufMake = ms
+					}
 				}
 			}
 		}
 		if err == nil && bufMake != nil {
 			k, _ := constInt64Val(maxPay)
-			eng.Dominates(c, "C05.read", fn, relGuard("hdr.Length <= MAX_PAYLOAD_LEN", isHdrField("Length"), isConstInt(k), token.LEQ), []ir.Sink{{Instr: bufMake, Note: "payload buffer allocation"}}, "payload buffer sized by hdr.Length", nil)
+			var allocSite ssa.Instruction = bufMake
+			if cl := callIn(fn, bufMake); cl != nil {
+				allocSite = cl // the allocation happens inside this call
+			}
+			eng.Dominates(c, "C05.read", fn, relGuard("hdr.Length <= MAX_PAYLOAD_LEN", isHdrField("Length"), isConstInt(k), token.LEQ), []ir.Sink{{Instr: allocSite, Note: "payload buffer allocation"}}, "payload buffer sized by hdr.Length", nil)
 		} else {
 			c.Broken("C05.read", fn, "payload buffer make([]byte, hdr.Length) and MAX_PAYLOAD_LEN", c.P.Rel(fn.Pos()), "not found")
 		}
-		isBuf := func(v ssa.Value) bool { return bufMake != nil && ir.Strip(v) == ssa.Value(bufMake) }
+		isBuf := func(v ssa.Value) bool {
+			if bufMake == nil {
+				return false
+			}
+			if ir.Strip(v) == ssa.Value(bufMake) {
+				return true
+			}
+			via, release := valueVia(v) // the buffer a helper returns
+			defer release()
+			return via != v && ir.Strip(via) == ssa.Value(bufMake)
+		}
 		eng.Dominates(c, "C05.read", fn, eng.NamedGuard{Name: "io.ReadFull(reader, buf) err==nil", G: ir.ErrNil(func(x *ssa.Call) bool {
 			return ir.IsPkgFunc(x, "io", "ReadFull") && isBuf(x.Common().Args[1])
 		})}, succ, "message returned", nil)
